@@ -268,25 +268,35 @@ def stage_paths(ctx, drv, findings):
 
 
 def stage_cli_subprocess(ctx, findings):
-    """thorough tier: the real `octave write` executable in a subprocess (exit code + snapshots)."""
+    """the real executable in a subprocess (exit code + snapshots): `octave write PATH` (thorough tier: broad) and the other ways the CLI
+    is given a file to write, `octave normalize/seal FILE -o PATH` (every tier: one path of every refusal class)."""
     segs = SEGS_Q
-    paths = list(enum_paths(segs, 1, False)) + list(enum_paths(segs, 1, True)) + [p for p in EXTRA_PATHS if "\x00" not in p]
-    for _ in range(ctx.budget(0, 900)):
-        n = ctx.rng.randint(2, 4)
-        paths.append(("{SB}/" if ctx.rng.random() < 0.2 else "") + "/".join(ctx.rng.choice(segs) for _ in range(n)))
-    jobs = [{"kind": "base", "seed": 0, "paths": ch} for ch in chunked(paths, 40)]
+    jobs = []
+    if ctx.thorough:
+        paths = list(enum_paths(segs, 1, False)) + list(enum_paths(segs, 1, True)) + [p for p in EXTRA_PATHS if "\x00" not in p]
+        for _ in range(ctx.budget(0, 900)):
+            n = ctx.rng.randint(2, 4)
+            paths.append(("{SB}/" if ctx.rng.random() < 0.2 else "") + "/".join(ctx.rng.choice(segs) for _ in range(n)))
+        jobs += [{"kind": "base", "seed": 0, "paths": ch} for ch in chunked(paths, 40)]
+    opaths = ["n.oct.md", "lf.md", "lfi.md", "dang.md", "ld/n.md", "lin/n.md", "d/../n.md", "../out/n.md", "up/out/n.md", "n.txt", "n.oct.md.sh", "n.md.bak", "{SB}/lf.md",
+              "{SB}/d/../../out/secret.md", "d/lf.md", "d/n.OCT.MD", "n.octave", "sub/../../out/n.md"]
+    if ctx.thorough:
+        opaths += list(enum_paths(segs, 1, False))
+    for cmd in ("normalize", "seal"):
+        jobs += [{"kind": "base", "seed": 0, "paths": ch, "cmd": cmd} for ch in chunked(opaths, 10)]
     for job, out in zip(jobs, vlib.pmap(PW.run_cli_subprocess_chunk, jobs, chunksize=1)):
         for r in out["results"]:
-            case = {"path": r["p"], "tree": "base", "tree_seed": 0, "entry": "octave write (subprocess)"}
+            entry = "octave write" if job.get("cmd", "write") == "write" else f"octave {job['cmd']} g.oct.md -o"
+            case = {"path": r["p"], "tree": "base", "tree_seed": 0, "entry": entry + " (subprocess)"}
             ctx.case(case)
             ctx.count("cli_subprocess:" + ("done" if r["rc"] == 0 else "refused"))
             fails = []
             if r["out_changed"]:
-                fails.append(("outside:cli_subprocess", f"`octave write` changed {r['out_changed']} outside the sandbox"))
+                fails.append(("outside:cli_subprocess", f"`{entry}` changed {r['out_changed']} outside the sandbox"))
             if r["cls"]["must_refuse"] and r["rc"] == 0:
-                fails.append(("not-refused:cli_subprocess", f"`octave write` exited 0 for a path that must be refused; changed={r['changed']}"))
+                fails.append(("not-refused:cli_subprocess", f"`{entry}` exited 0 for a path that must be refused; changed={r['changed']}"))
             elif r["cls"]["must_refuse"] and r["changed"]:
-                fails.append(("io-before-refusal:cli_subprocess", f"`octave write` refused but changed {r['changed']}"))
+                fails.append(("io-before-refusal:cli_subprocess", f"`{entry}` refused but changed {r['changed']}"))
             for why_class, why in fails:
                 hit = [f for f in findings if f["cls"] == "dangling_symlink_component" and CLASSES[f["cls"]](r)]
                 if hit:
@@ -463,8 +473,7 @@ def run(ctx: vlib.Ctx):
     stage_schema(ctx, drv)
     stage_frozen(ctx, drv)
     stage_uri(ctx, drv, findings)
-    if ctx.thorough:
-        stage_cli_subprocess(ctx, findings)
+    stage_cli_subprocess(ctx, findings)
     finish_meta(ctx)
 
 
